@@ -28,6 +28,10 @@ type Event struct {
 	Len int
 	Err string
 	T   time.Duration
+	// Head holds the first bytes (at most 4) of the message of a msg / drop
+	// event, Plain whether the relay's leak detector matched the message.
+	Head  []byte
+	Plain bool
 }
 
 // Fate of a relayed message.
@@ -58,6 +62,9 @@ type Relay struct {
 	count  map[string]int
 	// OnEvent, if set, is called (under the relay lock) for every event.
 	OnEvent func(Event)
+	// Leak, if set, inspects every message the relay sees and reports
+	// whether it contains something that should never be visible to it.
+	Leak func(msg []byte) bool
 }
 
 // New creates a relay.
@@ -65,8 +72,20 @@ func New() *Relay {
 	return &Relay{streams: map[string]*stream{}, start: time.Now(), count: map[string]int{}}
 }
 
-func (r *Relay) emit(ev, sid string, n int, err string) {
+func (r *Relay) emit(ev, sid string, n int, err string) { r.emitMsg(ev, sid, n, err, nil) }
+
+func (r *Relay) emitMsg(ev, sid string, n int, err string, msg []byte) {
 	e := Event{Ev: ev, SID: sid, Len: n, Err: err, T: time.Since(r.start)}
+	if msg != nil {
+		h := len(msg)
+		if h > 4 {
+			h = 4
+		}
+		e.Head = append([]byte(nil), msg[:h]...)
+		if r.Leak != nil {
+			e.Plain = r.Leak(msg)
+		}
+	}
 	r.Events = append(r.Events, e)
 	if r.OnEvent != nil {
 		r.OnEvent(e)
@@ -325,7 +344,7 @@ func (ws *sendStream) Send(box *hashmailrpc.CipherBox) error {
 		}
 		if ws.dead {
 			r.Payloads = append(r.Payloads, append([]byte(nil), box.Msg...))
-			r.emit("msg", sid, len(box.Msg), "lost-no-stream")
+			r.emitMsg("msg", sid, len(box.Msg), "lost-no-stream", box.Msg)
 			r.mu.Unlock()
 			return nil
 		}
@@ -343,11 +362,11 @@ func (ws *sendStream) Send(box *hashmailrpc.CipherBox) error {
 		f = r.Decide(sid, idx, msg)
 	}
 	if f.Drop {
-		r.emit("drop", sid, len(msg), "")
+		r.emitMsg("drop", sid, len(msg), "", msg)
 		r.mu.Unlock()
 		return nil
 	}
-	r.emit("msg", sid, len(msg), "")
+	r.emitMsg("msg", sid, len(msg), "", msg)
 	s := ws.s
 	if f.Delay > 0 {
 		r.mu.Unlock()
